@@ -145,8 +145,8 @@ structure Loader where
   /-- `->loader(m, h, 0)` and what the rest of `load_module` observes of the result -/
   load : Stream → LoadOut
 
-/-- "prowizard" -/
-def prowizardName : Bytes := "prowizard".toUTF8.toList
+/-- "prowizard" (the bytes of the C string literal compared by `strcmp` in `test_module`) -/
+def prowizardName : Bytes := [112, 114, 111, 119, 105, 122, 97, 114, 100]
 
 /-- a successful `pw_check`: the matching `pw_formats[i]` -/
 structure PwHit where
